@@ -515,6 +515,17 @@ func (sc *Scope) call(x ECall) V {
 		ks, vs := w.sortOf(mt.Key()), w.sortOf(mt.Elem())
 		_, _, vn, vso := mapHeaps(w, mt)
 		return V{sel(sc.heapTerm(vn, vso), m.T), arraySort(ks, vs), nil}
+	case "elems":
+		// elems(s): the whole backing array of slice s (indexed absolutely)
+		need(1)
+		b := arg(0)
+		u, ok := b.GT.Underlying().(*types.Slice)
+		if !ok {
+			specFail("elems expects a slice")
+		}
+		es := w.sortOf(u.Elem())
+		hn, hs := elemsHeap(es)
+		return V{sel(sc.heapTerm(hn, hs), app("sarr", b.T)), arraySort(SInt, es), nil}
 	case "raw":
 		// raw(s, k): element k of the backing array of slice s (absolute index, not relative to the slice's offset)
 		need(2)
@@ -620,6 +631,12 @@ func (sc *Scope) call(x ECall) V {
 		v := arg(0)
 		t := vc.resolveType(x.Args[1].String())
 		return V{and(not(eq(v.T, "nilI")), app("implements", app("typ", v.T), vc.ifaceNameOf(t))), SBool, nil}
+	case "hasMethod":
+		// hasMethod(x, Name): x is non-nil and its dynamic type has a method of that name
+		// (independent of how the package declares its interfaces)
+		need(2)
+		v := arg(0)
+		return V{and(not(eq(v.T, "nilI")), app(w.methodPred(x.Args[1].String()), app("typ", v.T))), SBool, nil}
 	case "kind":
 		need(1)
 		v := arg(0)
